@@ -367,7 +367,17 @@ class P2Threading (object):
         if S.cur is None: return
         return base.release(self_)
     return SetupTolerantRLock(S, "ds")
-  def Lock (self): return self.thr.CLock(self.S, "lock")
+  def Lock (self):
+    S = self.S; base = self.thr.CLock
+    class SetupTolerantLock (base):
+      """Non re-entrant CLock (a same-thread re-acquire blocks forever); no-op for the harness' setup thread."""
+      def acquire (self_, blocking=True, timeout=-1):
+        if S.cur is None: return True
+        return base.acquire(self_, blocking, timeout)
+      def release (self_):
+        if S.cur is None: return
+        return base.release(self_)
+    return SetupTolerantLock(S, "ds")
   def Event (self): return self.thr.CEvent(self.S)
   def current_thread (self): return self.S.cur
   currentThread = current_thread
@@ -510,6 +520,8 @@ def p2_exec (ctx, c):
     ds = W.ds
     for con, data in list(ds._dataForConnection.items()):
       if data and not con.disconnected and not con.sock.closed and not con.sock.shut: return True
+    # a thread that ends blocked on a lock never returns from the send path
+    if any(t.state == "blocked" and t.what.startswith(("Lock ", "RLock ")) for t in S.threads): return True
     return False
   S = thr.Sched(ctx, trace_files=("openflow/of_01.py",), trace_funcs=FUNCS,
                 pending=pending, max_points=c.get("max_points", 5000))
@@ -537,6 +549,8 @@ def p2_exec (ctx, c):
     sk = P2Sock(W, i)
     if c.get("backlog"):
       sk.backpressure = True; sk.defaults = list(c["backlog"][i])
+    elif c.get("defaults"):
+      sk.defaults = list(c["defaults"][i])
     con = of01.Connection(sk)
     sk.setup = False
     con.dpid = i + 1; con.ofnexus = nexus; nexus._connections[i + 1] = con; con.connect_time = 1.0
@@ -545,6 +559,18 @@ def p2_exec (ctx, c):
     con.addListener(of01.ConnectionDown, on_down)
     W.cons.append(con); W.socks.append(sk)
   W.coop_done = False
+  W.listener_exc = None
+  if c.get("listener"):
+    # a component listening to ConnectionDown of connection 0 that reacts by sending on connection 1 (from
+    # inside the handler, i.e. on whichever thread raises the event)
+    def on_down_send (e):
+      live()
+      try:
+        W.expected[1] += MSGS[3]
+        W.cons[1].send(MSGS[3])
+      except Exception as x:
+        if W.listener_exc is None: W.listener_exc = x
+    W.cons[0].addListener(of01.ConnectionDown, on_down_send)
 
   def deferred_idle ():
     t = S.threads[0]
@@ -560,8 +586,21 @@ def p2_exec (ctx, c):
           S.point("drained%d" % sk.idx)
           break
 
+  def io_pass ():
+    while W.later:
+      f, a, kw = W.later.pop(0)
+      f(*a, **kw)
+    for k in [k for k in W.cons if not k.sock.closed]:
+      if k.sock.readable():
+        if k.read() is False:
+          k.close()
+
   def coop ():
     for pi, (ci, mi) in enumerate(c["plan"]):
+      if ci < 0:                   # one pass of the I/O loop at this point of the plan
+        S.point("ioloop")
+        io_pass()
+        continue
       if pi in c.get("waits", ()):
         # the next message is sent "later": after the deferred sender had its chance to flush
         went_idle = [False]
@@ -580,13 +619,7 @@ def p2_exec (ctx, c):
       open_ = [k for k in W.cons if not k.sock.closed]
       if not open_: break
       S.block(lambda: W.later or any(k.sock.readable() for k in open_), what="io loop select")
-      while W.later:
-        f, a, kw = W.later.pop(0)
-        f(*a, **kw)
-      for k in open_:
-        if k.sock.readable():
-          if k.read() is False:
-            k.close()
+      io_pass()
     W.coop_done = True
 
   if c.get("backlog"): S.spawn(peer, name="peer")
@@ -607,6 +640,10 @@ def p2_exec (ctx, c):
       bad.append(("step-limit", v[1]))
     else:
       herr = "%s: %s" % v
+  if W.listener_exc is not None:
+    x = W.listener_exc
+    bad.append(("raises:listener:%s:%s" % (site_of(x), type(x).__name__),
+                "send() from a ConnectionDown handler raised %s: %s" % (type(x).__name__, x)))
   died = bool(bad)
   for i, con in enumerate(W.cons):
     sk = W.socks[i]
@@ -649,16 +686,27 @@ def p2_name (c):
   if c.get("backlog"):
     bl = "/backlog[%s]%s" % ("|".join(",".join(x) for x in c["backlog"]),
                              "/wait%s" % ",".join("%d" % w for w in c["waits"]) if c.get("waits") else "")
+  if c.get("defaults"):
+    bl = "/defaults[%s]%s%s" % ("|".join(",".join(x) for x in c["defaults"]),
+                                "/wait%s" % ",".join("%d" % w for w in c["waits"]) if c.get("waits") else "",
+                                "/down-listener-sends-on-1" if c.get("listener") else "")
   return "p2/%dcon%s%s%s%s/plan%s%s" % (c["ncons"], "" if c.get("eof") is None else "/eof%d" % c["eof"],
                                      "/pipebuf%d" % c["pipe_buf"] if c.get("pipe_buf") else "",
                                      "", "/rotate" if c.get("rotate") else "",
-                                     "".join("%d" % ci for ci, mi in c["plan"]), bl)
+                                     "".join("%d" % ci if ci >= 0 else "i" for ci, mi in c["plan"]), bl)
 
 
 ONE = [(0, 0), (0, 1), (0, 2)]
 TWO = [(0, 0), (1, 1), (0, 2)]
 ABA = [(0, 0), (1, 1), (0, 2)]
 ABBA = [(0, 0), (1, 1), (1, 2), (0, 3)]
+IO = (-1, -1)                       # plan step: one pass of the I/O loop (read/close) on the cooperative thread
+# fatal error in the deferred flush of A (A: short write, then EPIPE), then two later sends on B
+LISTEN_DEFERRED = dict(plan=[(0, 0), (1, 1), (1, 2)], waits=[1], defaults=[["one", "epipe"], []])
+LISTEN_DEFERRED_B = dict(plan=[(0, 0), (1, 1), (1, 2)], waits=[1], defaults=[["eagain", "epipe"], ["one"]])
+# fatal error on the direct write path of A, the I/O loop closes A (ConnectionDown on the cooperative thread),
+# B's socket short-writes what the listener sends, so the later sends on B go through the deferred sender
+LISTEN_DIRECT = dict(plan=[(0, 0), IO, (1, 1), (1, 2)], waits=[], defaults=[["epipe"], ["one"]])
 BACKLOGS = [[["one", "eagain"], ["one"]], [["one", "eagain", "eagain"], ["one"]], [["nm1", "one"], ["eagain", "one"]]]
 
 def p2_configs (cfg):
@@ -679,6 +727,10 @@ def p2_configs (cfg):
   # back-pressure scenarios: the DEFAULT socket scripts already put both connections into the deferred state
   # (A: short write, then EAGAIN once or twice; B: short write, then everything), sockets are not writable
   # while full, a peer thread drains them; the last message is sent after the deferred sender went idle
+  # fatal-error scenarios with a ConnectionDown listener that sends on the other connection
+  for sc in (LISTEN_DEFERRED, LISTEN_DEFERRED_B, LISTEN_DIRECT):
+    for (b, s) in cfg.pick([(2, 0), (1, 1)], [(2, 1), (3, 0), (1, 2)]):
+      add(2, sc["plan"], None, b, s, calls=6, defaults=sc["defaults"], waits=sc["waits"], listener=True)
   def addb (bl, plan, waits, b, s): add(2, plan, None, b, s, calls=6, backlog=BACKLOGS[bl], waits=waits)
   if cfg.quick:
     addb(0, ABA, [2], 2, 0); addb(0, ABA, [2], 1, 1)
@@ -814,7 +866,10 @@ def run (cfg):
               "RLock/select/waker operation) x every script of outcomes of the first 4 sock.send calls within the stated number of "
               "non-default outcomes; back-pressure scenarios (2 connections, sends A,B,A / A,B,B,A, last send after the deferred "
               "sender went idle or immediately): default socket scripts %r (per connection), a full socket is not writable until a "
-              "third controlled thread (the peer) drains it, first 6 sock.send calls scripted.  "
+              "third controlled thread (the peer) drains it, first 6 sock.send calls scripted; fatal-error scenarios with a "
+              "ConnectionDown listener on connection 0 that send()s on connection 1 from inside the handler (fatal error in the deferred "
+              "flush: default scripts [one,epipe] / [eagain,epipe]; on the direct write path: [epipe] followed by an I/O-loop pass), then two "
+              "later sends on connection 1.  "
               "distinct = (variant, history/verdict, socket calls, accepted bytes, notifications, failed clauses)"
               % (list(MSGS[:3]), cfg.pick(2, 3), ", ".join(FUNCS), BACKLOGS))
   rep.bound = dict(part1=dict(configs=len(c1), send_calls_scripted=6, script_deviations=cfg.pick(2, 3)),
